@@ -101,6 +101,11 @@ func provablyNonNilErr(v ssa.Value, b *ssa.BasicBlock, depth int) bool {
 			}
 		}
 	}
+	if ld, ok := v.(*ssa.UnOp); ok && ld.Op == token.MUL {
+		if g, isG := ld.X.(*ssa.Global); isG && sentinelErrors[g] {
+			return true // a package-level error value made once with errors.New / fmt.Errorf
+		}
+	}
 	switch x := v.(type) {
 	case *ssa.Call:
 		switch calleeKey(&x.Call) {
@@ -262,7 +267,85 @@ func checkCallErrHandled(call *ssa.Call, allowReturnErr bool, forbidden func(ssa
 			return false, fmt.Sprintf("non-nil error branch does not fail on every path: %v", off)
 		}
 	}
+	// ... and the error is not lost on the way to its test: from the call on, assuming the
+	// error is non-nil, every path fails loudly (a later assignment to the same variable - the
+	// result of a Close, say - must not stand in for it at the test)
+	for _, ev := range evs {
+		if off := errorLostOnSomePath(call, ev, allowReturnErr, forbidden); len(off) > 0 {
+			return false, fmt.Sprintf("the error is overwritten or dropped before it is tested on some path: %v", off)
+		}
+	}
 	return true, fmt.Sprintf("error tested (%d test(s)); non-nil branch returns a non-nil error / exits non-zero on all paths", len(tests))
+}
+
+// errorLostOnSomePath explores the paths from the call onwards under the assumption that its
+// error result ev is non-nil: at a nil test of ev (directly, or of a phi that the path bound
+// to ev) only the non-nil successor is followed; the path must end in a non-zero exit, or a
+// return of ev itself / of a provably non-nil error. Returns the other ends.
+func errorLostOnSomePath(call *ssa.Call, ev ssa.Value, allowReturnErr bool, forbidden func(ssa.Instruction) bool) []string {
+	var q *pathQuery
+	isEv := func(v ssa.Value) bool {
+		v = resolveLocal(v)
+		if v == ev {
+			return true
+		}
+		if q != nil {
+			if rv, from := q.onPath(v); from != nil && resolveLocal(rv) == ev {
+				return true
+			}
+		}
+		// a (possibly wrapped) copy: MakeInterface / ChangeInterface of ev
+		return peel(v) == ev
+	}
+	// the edge filter needs the environment of the path *at the block of the test*: the query
+	// sets q.cur before it looks at a block's instructions, and consults blockEdge afterwards
+	q = &pathQuery{
+		blockEdge: func(b, to *ssa.BasicBlock) bool {
+			ifi, ok := b.Instrs[len(b.Instrs)-1].(*ssa.If)
+			if !ok || len(b.Succs) != 2 || b.Succs[0] == b.Succs[1] {
+				return true
+			}
+			x, neq, isNil := nilCompare(ifi.Cond)
+			if !isNil || !isEv(x) {
+				return true
+			}
+			nonNilSucc := b.Succs[1]
+			if neq {
+				nonNilSucc = b.Succs[0]
+			}
+			return to == nonNilSucc
+		},
+		witness: func(i ssa.Instruction) bool {
+			if nonZeroExit(i) {
+				return true
+			}
+			if r, ok := i.(*ssa.Return); ok && allowReturnErr {
+				for _, res := range r.Results {
+					if !isErrorType(res.Type()) {
+						continue
+					}
+					if isEv(res) || provablyNonNilErr(res, r.Block(), 0) {
+						return true
+					}
+					if v, from := q.onPath(res); from != nil && (isEv(v) || provablyNonNilErr(v, from, 0)) {
+						return true
+					}
+				}
+			}
+			return false
+		},
+		isEnd: func(i ssa.Instruction) (string, bool) {
+			if forbidden != nil && forbidden(i) {
+				return "forbidden", true
+			}
+			return stdEnds(i)
+		},
+	}
+	var out []string
+	for _, e := range q.run(call.Block(), instrIndex(call)+1, false) {
+		out = append(out, fmt.Sprintf("%s at %s", e.Kind, e.Instr.String()))
+	}
+	return out
 }
 
 // callsIn lists the Call instructions of fn whose callee key satisfies pred.
@@ -287,4 +370,41 @@ func hasCallTo(fn *ssa.Function, keys ...string) bool {
 		}
 		return false
 	})) > 0
+}
+
+
+// sentinelErrors: package-level error variables that are assigned exactly once, in the package
+// initialiser, the result of errors.New / fmt.Errorf (`var errNotJSON = errors.New("...")`).
+var sentinelErrors = map[*ssa.Global]bool{}
+
+func computeSentinelErrors(c *Ctx) {
+	sentinelErrors = map[*ssa.Global]bool{}
+	stores := map[*ssa.Global]int{}
+	good := map[*ssa.Global]bool{}
+	for _, fn := range c.Funcs {
+		for _, b := range fn.Blocks {
+			for _, in := range b.Instrs {
+				st, ok := in.(*ssa.Store)
+				if !ok {
+					continue
+				}
+				g, ok := st.Addr.(*ssa.Global)
+				if !ok || g.Pkg != c.SPkg {
+					continue
+				}
+				stores[g]++
+				if call, isCall := st.Val.(*ssa.Call); isCall && fn.Name() == "init" {
+					switch calleeKey(&call.Call) {
+					case "fmt.Errorf", "errors.New":
+						good[g] = true
+					}
+				}
+			}
+		}
+	}
+	for g := range good {
+		if stores[g] == 1 {
+			sentinelErrors[g] = true
+		}
+	}
 }
